@@ -101,6 +101,7 @@ type State struct {
 	ClosedStmtUse int
 	DoubleClose   int
 	// failNext: one-shot faults, by event kind (see FailNext)
+	dead       map[int]bool
 	cancelNext map[string]func()
 	failNext   map[string]error
 }
@@ -156,6 +157,23 @@ func (s *State) CancelNext(kind string, cancel func()) {
 		s.cancelNext = map[string]func(){}
 	}
 	s.cancelNext[kind] = cancel
+}
+
+// KillConn declares a connection dead: every later statement on it fails with
+// driver.ErrBadConn and is not recorded (nothing is executed).
+func (s *State) KillConn(id int) {
+	s.mu.Lock()
+	defer s.mu.Unlock()
+	if s.dead == nil {
+		s.dead = map[int]bool{}
+	}
+	s.dead[id] = true
+}
+
+func (s *State) isDead(id int) bool {
+	s.mu.Lock()
+	defer s.mu.Unlock()
+	return s.dead[id]
 }
 
 // StmtCount is the number of statements prepared so far (the id of the latest one).
@@ -253,6 +271,9 @@ func (c *conn) Prepare(q string) (driver.Stmt, error) {
 }
 
 func (c *conn) PrepareContext(ctx context.Context, q string) (driver.Stmt, error) {
+	if c.s.isDead(c.id) {
+		return nil, driver.ErrBadConn
+	}
 	c.s.mu.Lock()
 	c.s.nextStmt++
 	id := c.s.nextStmt
@@ -365,6 +386,9 @@ func (r result) LastInsertId() (int64, error) { return r.s.script.LastInsertID, 
 func (r result) RowsAffected() (int64, error) { return r.s.script.RowsAffected, nil }
 
 func (st *stmt) ExecContext(ctx context.Context, args []driver.NamedValue) (driver.Result, error) {
+	if st.c.s.isDead(st.c.id) {
+		return nil, driver.ErrBadConn
+	}
 	st.used()
 	vals, names := argTexts(args)
 	_, f := st.c.s.record(Event{Kind: "exec", Conn: st.c.id, Stmt: st.id, SQL: st.sql, Args: vals, Names: names, Ctx: ctxInfo(ctx), Closed: st.closed})
@@ -375,6 +399,9 @@ func (st *stmt) ExecContext(ctx context.Context, args []driver.NamedValue) (driv
 }
 
 func (st *stmt) QueryContext(ctx context.Context, args []driver.NamedValue) (driver.Rows, error) {
+	if st.c.s.isDead(st.c.id) {
+		return nil, driver.ErrBadConn
+	}
 	st.used()
 	vals, names := argTexts(args)
 	st.c.s.mu.Lock()
